@@ -711,7 +711,10 @@ func (sys *System) GetCachedLocations(ctx *Context) []string {
 }
 
 func (sys *System) ensureStorage(ctx *Context) (Storage, error) {
-	// Assumes we have the sys lock
+	// The first requests can arrive concurrently; they all have to
+	// end up with the same storage.
+	sys.Lock()
+	defer sys.Unlock()
 	if sys.storage != nil {
 		return sys.storage, nil
 	}
